@@ -204,6 +204,10 @@ def assemble(flavour, cfg, files, active_units, ext_out, auto_weak=()):
                     out.append(f"// @UNIT {uname} {fname}:{seg['src_start_line']}-{seg['src_end_line']}\n")
                     out.append(seg['text'] + '\n')
                     out.append('// @ENDUNIT\n')
+                elif kind == 'item' and seg.get('name') in fo.get('auto_items', []):
+                    out.append(f"// @UNIT item:{fname}:{seg['name']} {fname}:{seg.get('src_start_line', 0)}-{seg.get('src_end_line', 0)}\n")
+                    out.append(seg['text'] + '\n')
+                    out.append('// @ENDUNIT\n')
                 else:
                     out.append(seg['text'] + '\n')
             for ex in files[fname]['extra']:
@@ -275,9 +279,10 @@ def assemble(flavour, cfg, files, active_units, ext_out, auto_weak=()):
     return text, meta
 
 
-def run_extractor(flavour, cfg, files, units, bare=()):
+def run_extractor(flavour, cfg, files, units, bare=(), opaque=()):
     os.makedirs(BUILD, exist_ok=True)
     ecfg, active = build_extractor_config(flavour, cfg, files, units, bare)
+    ecfg['opaque_auto'] = list(opaque)
     cpath = os.path.join(BUILD, f'extract_{flavour}.cfg.json')
     opath = os.path.join(BUILD, f'extract_{flavour}.out.json')
     json.dump(ecfg, open(cpath, 'w'), indent=1)
@@ -500,15 +505,45 @@ def verify_with_auto_weak(flavour, cfg, files, active, ext, rlimit, seed, max_ro
     return text, meta, gen, res, weak
 
 
+def region_of_hard_error(res, meta, gen_name):
+    """the innermost @UNIT region that an error which is NOT a verification failure (rustc type
+    error, construct Verus rejects) points into, if any"""
+    for d in res['diags']:
+        if d.get('level') != 'error':
+            continue
+        msg = d.get('message', '')
+        if msg.startswith('aborting due to') or (not d.get('code') and VERIFICATION_FAILURE.search(msg)):
+            continue
+        for sp in d.get('spans', []):
+            if not sp.get('file_name', '').endswith(gen_name):
+                continue
+            best = None
+            for u in meta['units']:
+                if u['start'] <= sp['line_start'] <= (u['end'] or 10**9):
+                    if best is None or u['start'] >= best['start']:
+                        best = u
+            if best is not None:
+                return best['id']
+    return None
+
+
 def full_run(flavour, cfg, files, units, rlimit=40, seed=0):
-    """extract + verify, retrying (a) with Verus' own suggested weak std specs and (b) with the
+    """extract + verify, retrying (a) with Verus' own suggested weak std specs, (b) with the
     loop/closure/hint annotations of a unit dropped when the woven text no longer type-checks
-    against the current body of that unit ("bare" mode: only its pre/postconditions remain)"""
+    against the current body of that unit ("bare" mode: only its pre/postconditions remain) and
+    (c) with an auto-included helper (a same-file function without a contract that a unit calls)
+    reduced to its signature - external_body, nothing known about its result - or an
+    auto-included const/static/type left out, when the compiler or Verus rejects it ("opaque")"""
     bare = set()
+    opaque = set()
     annotated = {u['id'] for u in units if u['closures'] or u['loops'] or u['hints']}
-    for _ in range(5):
-        ext, active = run_extractor(flavour, cfg, files, units, bare=tuple(bare))
+    for _ in range(10):
+        ext, active = run_extractor(flavour, cfg, files, units, bare=tuple(bare), opaque=tuple(sorted(opaque)))
         text, meta, gen, res, weak = verify_with_auto_weak(flavour, cfg, files, active, ext, rlimit, seed)
+        hid = region_of_hard_error(res, meta, os.path.basename(gen))
+        if hid is not None and (hid.startswith('auto:') or hid.startswith('item:')) and hid not in opaque:
+            opaque.add(hid)
+            continue
         uid = unit_of_rustc_error(res, meta, os.path.basename(gen))
         if uid is None or uid in bare:
             break
@@ -518,4 +553,5 @@ def full_run(flavour, cfg, files, units, rlimit=40, seed=0):
         if not cand:
             break
         bare.add(cand[0])
+    ext['opaque_auto'] = sorted(opaque)
     return ext, active, text, meta, gen, res, weak, sorted(bare)
